@@ -205,7 +205,12 @@ def history(rng, machine, n, invalid=0.25, restarts=0.0, slot=0):
                 ops.append(dump_for_tree_op(rng, variants, arches))
         if restarts and rng.random() < restarts:
             ops.append({"op": "dump", "path": path})
-            ops.append({"op": "restart", "path": path, "via": pick(rng, ["path", "handle", "loads"]), "offset": rng.randint(0, 500)})
+            if rng.random() < 0.25:
+                ops.append({"op": "reload_same", "path": path})
+            else:
+                ops.append({"op": "restart", "path": path, "via": pick(rng, ["path", "handle", "loads"]), "offset": rng.randint(0, 500)})
+        if rng.random() < 0.06:
+            ops.append({"op": "mf_del_variant", "variant": pick(rng, variants)})
     if slot:
         for o in ops:
             o["slot"] = slot
